@@ -448,7 +448,7 @@ func (s *Service) restoreFromECPartsByRule(ctx context.Context, cnr cid.ID, pare
 	for i := range rule.ParityPartNum {
 		partIdx := int(rule.DataPartNum + i)
 		eg.Go(func() error {
-			_, part, err := s.getECPart(gCtx, cnr, parent, rule, ruleIdx, sortedNodes, partIdx)
+			parentHdr, part, err := s.getECPart(gCtx, cnr, parent, rule, ruleIdx, sortedNodes, partIdx)
 			if err != nil {
 				if errors.Is(err, apistatus.ErrObjectAlreadyRemoved) || errors.Is(err, apistatus.ErrObjectAccessDenied) || errors.Is(err, gCtx.Err()) ||
 					errors.As(err, new(*object.SplitInfoError)) {
@@ -462,6 +462,11 @@ func (s *Service) restoreFromECPartsByRule(ctx context.Context, cnr cid.ID, pare
 					zap.Int("ruleIdx", ruleIdx), zap.Int("partIdx", partIdx), zap.Error(err),
 				)
 				return nil
+			}
+
+			// no data part may have been received, then the parent header comes from here
+			if !gotHdr.Swap(true) {
+				hdr = parentHdr
 			}
 
 			parts[partIdx] = part
@@ -480,7 +485,7 @@ func (s *Service) restoreFromECPartsByRule(ctx context.Context, cnr cid.ID, pare
 		return object.Object{}, tooManyPartsUnavailableError(rem)
 	}
 
-	payload, err := iec.Decode(rule, pldLen, parts)
+	payload, err := iec.Decode(rule, hdr.PayloadSize(), parts)
 	if err != nil {
 		return object.Object{}, fmt.Errorf("decode payload from parts: %w", err)
 	}
